@@ -176,12 +176,19 @@ func child(r *Rand, tier string, replay []string) {
 					h.generate(i)
 				}
 				emit(fmt.Sprintf("H\t%d\t%s", i, h.header()))
-				synctest.Test(t, func(t *testing.T) { h.execute() })
-				emit(fmt.Sprintf("E\t%d\t%s\t%s\t%s\t%s", i, h.kindName(), h.result, h.class, map[bool]string{true: "1", false: "0"}[h.nontrivial]))
-				if h.stuck {
-					w.Flush()
-					os.Exit(3)
+				end := func() {
+					emit(fmt.Sprintf("E\t%d\t%s\t%s\t%s\t%s", i, h.kindName(), h.result, h.class, map[bool]string{true: "1", false: "0"}[h.nontrivial]))
 				}
+				synctest.Test(t, func(t *testing.T) {
+					h.execute()
+					if h.stuck {
+						// goroutines of this history are blocked for good: the bubble cannot be left
+						end()
+						w.Flush()
+						os.Exit(3)
+					}
+				})
+				end()
 			}
 			emit("DONE")
 			w.Flush()
@@ -226,6 +233,7 @@ type call struct {
 	on     int  // pipelined: the call whose answer it is made on
 	pred   int  // -1 or the previous call of the same caller
 	field  uint16
+	self   bool // direct call whose result capabilities are the server itself (directed corpus cases only)
 
 	ctx    context.Context
 	cancel context.CancelFunc
@@ -354,6 +362,8 @@ func (h *hist) header() string {
 		switch {
 		case c.direct && c.send:
 			fmt.Fprintf(&sb, " s:%s", pr)
+		case c.direct && c.self:
+			fmt.Fprintf(&sb, " d:%s:self", pr)
 		case c.direct:
 			fmt.Fprintf(&sb, " d:%s", pr)
 		default:
@@ -378,6 +388,7 @@ func (h *hist) parse(line string) {
 		switch s[0][0] {
 		case 'd':
 			c.direct = true
+			c.self = len(s) > 2 && s[2] == "self"
 		case 's':
 			c.direct, c.send = true, true
 		case 'p':
@@ -486,7 +497,12 @@ func (h *hist) impl(ctx context.Context, sc *server.Call) error {
 
 func (h *hist) fillCaps(res capnp.Struct, of int) {
 	for _, f := range fields {
-		cl := capnp.NewClient(&target{h: h, of: of, field: f})
+		var cl *capnp.Client
+		if h.calls[of].direct && h.calls[of].self {
+			cl = capnp.NewClient(selfHook{h})
+		} else {
+			cl = capnp.NewClient(&target{h: h, of: of, field: f})
+		}
 		id := res.Message().AddCap(cl)
 		if err := res.SetPtr(f, capnp.NewInterface(res.Segment(), id).ToPtr()); err != nil {
 			panic(err)
@@ -533,6 +549,19 @@ func (t *target) Send(ctx context.Context, s capnp.Send) (*capnp.Answer, capnp.R
 }
 func (t *target) Brand() capnp.Brand { return capnp.Brand{} }
 func (t *target) Shutdown()          {}
+
+// selfHook is the server's own capability as it appears in a result struct (Shutdown is not
+// forwarded: the harness owns the server).
+type selfHook struct{ h *hist }
+
+func (s selfHook) Recv(ctx context.Context, r capnp.Recv) capnp.PipelineCaller {
+	return s.h.srv.Recv(ctx, r)
+}
+func (s selfHook) Send(ctx context.Context, snd capnp.Send) (*capnp.Answer, capnp.ReleaseFunc) {
+	return s.h.srv.Send(ctx, snd)
+}
+func (s selfHook) Brand() capnp.Brand { return capnp.Brand{} }
+func (s selfHook) Shutdown()          {}
 
 // fwd is the PipelineCaller a target returns for a delivered call that has not returned yet.
 type fwd struct {
